@@ -234,6 +234,37 @@ def programs(rng, tier):
             prev = "s%d" % i
         prog.append(["same", "eq", "$all", "$" + prev])
         P.add_prog(prog)
+    # list storms: several projections of ONE operand inside one program (one worker thread) over lists that a cheap fingerprint
+    # cannot tell apart — same length, smallest and largest entry and sum (one entry moved up and another down), the same entries
+    # in another order, one entry repeated in place of another: a variable set remembered from the previous call under such a
+    # key projects the wrong variables
+    storms = []
+    for _ in range(150 if tier == "quick" else 3000):
+        nv = rng.choice([5, 6, 7, 8])
+        a = rand_operand(rng, nv, 0.0)
+        b = rand_operand(rng, nv, 0.0)
+        xs = sorted(rng.sample(range(nv), rng.randrange(3, nv)))
+        lists = [list(xs)]
+        for _k in range(rng.choice([1, 2, 3])):
+            ys = list(lists[-1])
+            kind = rng.choice(["shift", "shift", "dup", "perm"])
+            if kind == "shift" and len(ys) >= 4:
+                i, j = sorted(rng.sample(range(1, len(ys) - 1), 2))
+                ys[i], ys[j] = max(ys[0], ys[i] - 1), min(ys[-1], ys[j] + 1)      # same length, ends and (mostly) sum
+            elif kind == "dup" and len(ys) >= 3:
+                i = rng.randrange(1, len(ys) - 1)
+                ys[i] = ys[i - 1] if rng.random() < 0.5 else ys[i + 1]
+            else:
+                rng.shuffle(ys)
+            lists.append(ys)
+        prog = [["a", "id", bdd_sx(a)], ["b", "id", bdd_sx(b)]]
+        for i, ys in enumerate(lists):
+            vs = ["L"] + [str(y) for y in ys]
+            prog.append(["q%d" % i] + rng.choice([["exists", "$a", vs], ["for_all", "$a", vs], ["exists", "$a", vs],
+                                                  ["bin_exists", partial_table(rng, rng.choice(CONNS)), "$a", "$b", vs],
+                                                  ["bin_for_all", partial_table(rng, rng.choice(CONNS)), "$a", "$b", vs]]))
+        storms.append(prog)
+    progs_seq.extend(storms)
     return P.progs + progs_seq
 
 
